@@ -21,6 +21,7 @@ EXPLANATION = (
     "  Every ordering computed by the parser model (sorted/min/max/sort) is keyed by task level only (C09.total): a key that is None for a placeholder node raises for exactly the subsets the property quantifies over."
     '  Generation side: C02.exit-order (the context is reset before the end message is written) is part of this property, because a message logged under an action after its end is rejected by the parser.'
     '  C09.order: a Task/Parser field overwritten on the add path with a value of the message being added (no merge with its previous value) depends on arrival order.'
+    '  For a parse_stream that adds to Tasks itself, only the timing clause is decided: a task complete after Task.add must be tested and yielded before the next message is read.'
 )
 RULE = ("obligation = rule instance bound to a statement/branch/loop of Task._insert_action, _ensure_node_parents, "
         "Task.add, Parser.add, parse_stream; non-trivial = dependency slice or CFG paths examined")
